@@ -37,6 +37,11 @@ type limitedBroadcast struct {
 	b         Broadcast
 
 	name string // set if Broadcast is a NamedBroadcast
+
+	// named is true if Broadcast is a NamedBroadcast, whatever its name: an
+	// empty name is a name like any other (it reaches us as the node name
+	// of a remote claim) and must supersede / be superseded the same way.
+	named bool
 }
 
 // Less tests whether the current item is less than the given argument.
@@ -191,12 +196,13 @@ func (q *TransmitLimitedQueue) queueBroadcast(b Broadcast, initialTransmits int)
 	unique := false
 	if nb, ok := b.(NamedBroadcast); ok {
 		lb.name = nb.Name()
+		lb.named = true
 	} else if _, ok := b.(UniqueBroadcast); ok {
 		unique = true
 	}
 
 	// Check if this message invalidates another.
-	if lb.name != "" {
+	if lb.named {
 		if old, ok := q.tm[lb.name]; ok {
 			old.b.Finished()
 			q.deleteItem(old)
@@ -234,7 +240,7 @@ func (q *TransmitLimitedQueue) queueBroadcast(b Broadcast, initialTransmits int)
 // must already hold the mutex.
 func (q *TransmitLimitedQueue) deleteItem(cur *limitedBroadcast) {
 	_ = q.tq.Delete(cur)
-	if cur.name != "" {
+	if cur.named {
 		delete(q.tm, cur.name)
 	}
 
@@ -257,7 +263,7 @@ func (q *TransmitLimitedQueue) addItem(cur *limitedBroadcast) {
 		q.idGen = cur.id
 	}
 	_ = q.tq.ReplaceOrInsert(cur)
-	if cur.name != "" {
+	if cur.named {
 		q.tm[cur.name] = cur
 	}
 }
